@@ -283,13 +283,30 @@ def act_strategy():
 
 def reentrant_strategy(tier):
     act = act_strategy()
-    return st.fixed_dictionaries({
+    # focused family: delegation through `peer` while callbacks of the DELEGATE (its default method, its change handler)
+    # rebind or drop the delegate - random programs reach this far too rarely
+    rebind = st.sampled_from([["peer_new"], ["peer_none"], ["gc"], ["peer_self"], ["new_dict"], ["clear_dict", "peer"]])
+    dact = st.one_of(st.sampled_from([["get", "dd"], ["get", "dd"], ["set", "dd", 1], ["set", "dd", 2], ["get", "d"], ["set", "d", 4],
+                                      ["set", "pd", 3], ["get", "pv"], ["set", "pv", 3], ["del", "pv"], ["peer_new"], ["gc"],
+                                      ["otc_add", "a", 0], ["get", "p"]]), act)
+    focused = st.fixed_dictionaries({
+        "script": st.fixed_dictionaries({"peer_default": st.lists(rebind, min_size=1, max_size=2),
+                                         "peer_changed": st.lists(rebind, min_size=0, max_size=2),
+                                         "static_a": st.lists(rebind, min_size=0, max_size=1),
+                                         "getter": st.lists(rebind, min_size=0, max_size=1)}),
+        "instance_traits": st.lists(st.sampled_from(["s", "a", "i", "l"]), max_size=1),
+        "prog": st.lists(dact, min_size=1, max_size=10),
+        "reraise": st.booleans(),
+        "gc_stress": st.booleans(),
+    })
+    general = st.fixed_dictionaries({
         "script": st.dictionaries(st.sampled_from(SITES), st.lists(act, min_size=1, max_size=3), max_size=5),
         "instance_traits": st.lists(st.sampled_from(["s", "a", "i", "l"]), max_size=2),
         "prog": st.lists(act, min_size=1, max_size=15),
         "reraise": st.booleans(),
         "gc_stress": st.booleans(),
     })
+    return st.one_of(general, general, focused)
 
 
 def reentrant_run(case, ctx):
